@@ -3,6 +3,7 @@ from engine import *
 import obligations
 import provenance
 import mutations
+import accessors
 import tlv
 
 MONP = 'lightning::chain::channelmonitor::'
@@ -405,3 +406,9 @@ RULES = [
 RULES.append(('06.u', 'obligation-carrying values returned by workspace calls (to-fail HTLC lists, monitor updates, events, peer messages, claim packages) are never dropped on a path that does not examine them (rules/obligations.py)', lambda F: obligations.for_property(F, 'C06', '06.u')))
 RULES.append(('06.t', 'identity comparisons: every reviewed (function, identity type) == / != comparison (HTLCSource, Txid, OutPoint, ChannelId, PaymentHash, PublicKey, ...) is still made - a function does not silently change what it matches by (rules/provenance.py)', lambda F: provenance.ids_for_property(F, 'C06', '06.t')))
 RULES.append(('06.M', 'collection mutations: every reviewed (function, stored collection, mutator class: add / remove / filter / empty / swap / order) triple is still present - an entry that is no longer removed, inserted or drained on one path (rules/mutations.py)', lambda F: mutations.for_property(F, 'C06', '06.M')))
+RULES.append(('06.A', 'enum accessors agree across sibling variants: an accessor that returns the payload field `x` for one variant returns it for every variant whose payload carries a field of that name and type (a variant moved to the `=> None` arm) - rules/accessors.py', lambda F: accessors.for_property(F, 'C06', '06.A')))
+
+def r06F(F):
+	import C11
+	return C11.r11F(F, '06.F')
+RULES.append(('06.F', 'filter_block remembers every transaction it reports, so that a justice transaction spending an in-block HTLC transaction of a revoked commitment is seen (11.F under C06)', r06F))
